@@ -5,6 +5,7 @@ import (
 	"fmt"
 
 	"github.com/ontio/ontology-crypto/keypair"
+	csig "github.com/ontio/ontology-crypto/signature"
 	"github.com/ontio/ontology/common"
 	"github.com/ontio/ontology/core/payload"
 	"github.com/ontio/ontology/core/signature"
@@ -59,7 +60,7 @@ func c16Oracle(tx *types.Transaction) string {
 				continue
 			}
 			for _, sg := range sig.SigData {
-				if signature.Verify(pk, hash[:], sg) == nil {
+				if c16SigValid(pk, hash[:], sg) {
 					distinct[ser] = true
 					break
 				}
@@ -84,6 +85,22 @@ func c16Oracle(tx *types.Transaction) string {
 		return "payer is not an account of any signature set"
 	}
 	return ""
+}
+
+// c16SigValid verifies with the crypto library directly (not through the node's
+// core/signature wrapper, which is part of what is being judged); a panic of the
+// library on malformed input means "not valid".
+func c16SigValid(pk keypair.PublicKey, data, sig []byte) (ok bool) {
+	defer func() {
+		if recover() != nil {
+			ok = false
+		}
+	}()
+	so, err := csig.Deserialize(sig)
+	if err != nil {
+		return false
+	}
+	return csig.Verify(pk, data, so)
 }
 
 // sigSection finds where the signature section starts in Ontology-format bytes.
